@@ -133,6 +133,9 @@ class Model(object):
         cid that no content of the alphabet has."""
         if ref[0] == "c":
             return self.cid_of(self.contents[ref[1]])
+        if ref[0] == "C":
+            # the same digest spelled in upper case: a DIFFERENT cid string for the store
+            return self.cid_of(self.contents[ref[1]]).upper()
         return digest(self.algo, b"never-stored-%d" % ref[1])
 
     def fmt(self, f):
